@@ -124,7 +124,8 @@ def binarize_rule(func, lin, rule_cnt, vert, label_gen, result):
             result[func] = {}
         if not lin in result[func]:
             result[func][lin] = {}
-        result[func][lin][grammarconst.DEFAULT_VERT] = rule_cnt
+        result[func][lin][grammarconst.DEFAULT_VERT] = \
+            result[func][lin].get(grammarconst.DEFAULT_VERT, 0) + rule_cnt
     else:
         this_lin = lin
         sub_lin = linsub(lin, lambda x: x > 0, lambda x: 1, True)
@@ -134,7 +135,8 @@ def binarize_rule(func, lin, rule_cnt, vert, label_gen, result):
             result[bin_func] = {}
         if not sub_lin in result[bin_func]:
             result[bin_func][sub_lin] = {}
-        result[bin_func][sub_lin][grammarconst.DEFAULT_VERT] = rule_cnt
+        result[bin_func][sub_lin][grammarconst.DEFAULT_VERT] = \
+            result[bin_func][sub_lin].get(grammarconst.DEFAULT_VERT, 0) + rule_cnt
         for i in range(1, len(func) - 3):
             this_lin = linsub(this_lin, lambda x: x >= 0,
                               lambda x: x - 1, False)
@@ -149,7 +151,8 @@ def binarize_rule(func, lin, rule_cnt, vert, label_gen, result):
                 result[bin_func] = {}
             if not sub_lin in result[bin_func]:
                 result[bin_func][sub_lin] = {}
-            result[bin_func][sub_lin][grammarconst.DEFAULT_VERT] = rule_cnt
+            result[bin_func][sub_lin][grammarconst.DEFAULT_VERT] = \
+                result[bin_func][sub_lin].get(grammarconst.DEFAULT_VERT, 0) + rule_cnt
         bin_func = tuple([bin_label, func[-2], func[-1]])
         this_lin = linsub(this_lin, lambda x: x >= 0, lambda x: x - 1, False)
         this_lin = linsub(this_lin, lambda x: x == -1, lambda x: None, False)
@@ -157,7 +160,8 @@ def binarize_rule(func, lin, rule_cnt, vert, label_gen, result):
             result[bin_func] = {}
         if not this_lin in result[bin_func]:
             result[bin_func][this_lin] = {}
-        result[bin_func][this_lin][grammarconst.DEFAULT_VERT] = rule_cnt
+        result[bin_func][this_lin][grammarconst.DEFAULT_VERT] = \
+            result[bin_func][this_lin].get(grammarconst.DEFAULT_VERT, 0) + rule_cnt
 
 
 def reordering_none(func, lin):
